@@ -76,7 +76,7 @@ def writesOf : History → List (Key × Option Val)
   | _ :: r => writesOf r
 
 /-- Every stored entry holds a value that was written for its own key. -/
-def Prov (W : List (Key × Option Val)) (s : Store) : Prop :=
+def BProv (W : List (Key × Option Val)) (s : Store) : Prop :=
   ∀ k e, s.get hash k = some e → (k, e.V) ∈ W
 
 /-- What a single output may contain, given the writes so far. -/
@@ -87,12 +87,12 @@ def OutProv (W : List (Key × Option Val)) : Op → Out → Prop
   | _, .walk es => ∀ e ∈ es, (e.K, e.V) ∈ W
   | _, _ => True
 
-theorem prov_mono {W W' : List (Key × Option Val)} {s : Store} (h : Prov hash W s) (hsub : ∀ x, x ∈ W → x ∈ W') :
-    Prov hash W' s := fun k e he => hsub _ (h k e he)
+theorem bprov_mono {W W' : List (Key × Option Val)} {s : Store} (h : BProv hash W s) (hsub : ∀ x, x ∈ W → x ∈ W') :
+    BProv hash W' s := fun k e he => hsub _ (h k e he)
 
-theorem read_prov {W : List (Key × Option Val)} {s : Store} {kind : Kind} (cfg : Cfg) (hw : s.WF hash)
-    (hk : KindOK hash kind) (hp : Prov hash W s) (k : Key) (skip : Bool) (now : Time) :
-    Prov hash W (s.read hash kind cfg k skip now).1 := by
+theorem bread_prov {W : List (Key × Option Val)} {s : Store} {kind : Kind} (cfg : Cfg) (hw : s.WF hash)
+    (hk : KindOK hash kind) (hp : BProv hash W s) (k : Key) (skip : Bool) (now : Time) :
+    BProv hash W (s.read hash kind cfg k skip now).1 := by
   intro k' e' he'
   have hv := get_read_view hash cfg hw hk k skip now k'
   rw [he'] at hv
@@ -104,9 +104,9 @@ theorem read_prov {W : List (Key × Option Val)} {s : Store} {kind : Kind} (cfg 
     rw [← hv.2.1] at this; exact this
 
 theorem C09_step_provenance {W : List (Key × Option Val)} {s : Store} (kind : Kind) (cfg : Cfg)
-    (hw : s.WF hash) (hk : KindOK hash kind) (hp : Prov hash W s) (now : Time) (op : Op) :
+    (hw : s.WF hash) (hk : KindOK hash kind) (hp : BProv hash W s) (now : Time) (op : Op) :
     OutProv W op (Backend.step hash kind cfg s now op).2.1 ∧
-    Prov hash (W ++ writesOf [(now, op)]) (Backend.step hash kind cfg s now op).1 := by
+    BProv hash (W ++ writesOf [(now, op)]) (Backend.step hash kind cfg s now op).1 := by
   cases op with
   | write k v ctxTTL rn rd =>
     refine ⟨trivial, ?_⟩
@@ -130,7 +130,7 @@ theorem C09_step_provenance {W : List (Key × Option Val)} {s : Store} (kind : K
       · simp [hkk, hh] at he'; left; exact hp k' e' he'
   | read k skip =>
     simp only [Backend.step, writesOf, List.append_nil]
-    refine ⟨?_, read_prov hash cfg hw hk hp k skip now⟩
+    refine ⟨?_, bread_prov hash cfg hw hk hp k skip now⟩
     rw [read_out hash cfg hw hk]
     by_cases hs : skip = true
     · simp [hs, OutProv]
@@ -142,7 +142,7 @@ theorem C09_step_provenance {W : List (Key × Option Val)} {s : Store} (kind : K
         by_cases hx : e.E ≠ 0 ∧ e.E < now <;> simp [hx, OutProv, this]
   | load k =>
     simp only [Backend.step, writesOf, List.append_nil]
-    refine ⟨?_, read_prov hash cfg hw hk hp k false now⟩
+    refine ⟨?_, bread_prov hash cfg hw hk hp k false now⟩
     rw [read_out hash cfg hw hk]
     simp only [Bool.false_eq_true, if_false]
     cases hg : s.get hash k with
@@ -185,7 +185,7 @@ def OutsProv : List (Key × Option Val) → History → List Out → Prop
 /-- **C09_values_have_provenance** — for every hash function (collisions included), every history: whatever a
     Read/Load/Walk returns for a key was written for that very key earlier in the history. -/
 theorem C09_values_have_provenance (kind : Kind) (cfg : Cfg) (hk : KindOK hash kind) (h : History) :
-    ∀ (W : List (Key × Option Val)) (s : Store), s.WF hash → Prov hash W s →
+    ∀ (W : List (Key × Option Val)) (s : Store), s.WF hash → BProv hash W s →
       OutsProv W h (Backend.run hash kind cfg s h).2.1 := by
   induction h with
   | nil => intro W s _ _; trivial
